@@ -266,6 +266,106 @@ def _inline_macros(body: "list[nodes.Node]", resolve: Any, depth: int = 2) -> "l
     return out
 
 
+def _literal_elements(it: nodes.Node) -> "list[nodes.Node] | None":
+    """the elements of a literal list / tuple whose elements are constants, names or displays of those (evaluating them has no effect and
+    gives the same value every time: reading the element where the loop variable is read is the same program)"""
+    def plain(e: nodes.Node) -> bool:
+        return isinstance(e, (nodes.Const, nodes.Name)) or (isinstance(e, (nodes.Tuple, nodes.List)) and all(plain(x) for x in e.items))
+
+    return list(it.items) if isinstance(it, (nodes.List, nodes.Tuple)) and it.items and all(plain(x) for x in it.items) else None
+
+
+def _subst_loop(n: nodes.Node, attrs: "dict[str, Any]") -> bool:
+    """replace, in place, `loop.<attr>` of the loop being unrolled (not of a loop nested in it) by its value in this round; False when
+    `loop` is read in any other way (loop.cycle(...), passed on, ...)"""
+    ok = True
+    for fld, val in n.iter_fields():
+        items = val if isinstance(val, list) else [val]
+        for i, x in enumerate(items):
+            if not isinstance(x, nodes.Node):
+                continue
+            if isinstance(x, nodes.Getattr) and isinstance(x.node, nodes.Name) and x.node.name == "loop" and x.attr in attrs:
+                new = nodes.Const(attrs[x.attr], lineno=x.lineno)
+                if isinstance(val, list):
+                    val[i] = new
+                else:
+                    setattr(n, fld, new)
+            elif isinstance(x, nodes.Name) and x.name == "loop":
+                ok = False
+            elif isinstance(x, nodes.For):
+                ok = _subst_loop(x.iter, attrs) and ok        # the iterable is evaluated in this loop; body / else have their own `loop`
+            else:
+                ok = _subst_loop(x, attrs) and ok
+    return ok
+
+
+def _unroll(body: "list[nodes.Node]", depth: int = 3) -> "list[nodes.Node]":
+    """The template body with every `for` over a literal list / tuple (of constants, names, displays of those; no `else`, not recursive)
+    replaced by its rounds written out: in each round the loop variables read as the round's element, `loop.first / last / index /
+    index0 / length` as their values, a `set` variable of the round whose definition has become a literal as that literal (_fold: a
+    conditional over a literal is the arm it selects, a literal that is emitted is template text).  A loop filter stays as an `if`
+    around the round (then `loop.*` is not known and, if read, the loop stays).  Writing n similar pieces of a template as one loop over
+    a table of their differences renders the same text, so rules about what is emitted read the rounds."""
+    out: list[nodes.Node] = []
+    for n in body:
+        if isinstance(n, nodes.For) and depth > 0 and not n.else_ and not n.recursive and _literal_elements(n.iter) is not None:
+            elems = _literal_elements(n.iter) or []
+            targets = [n.target] if isinstance(n.target, nodes.Name) else list(n.target.items) if isinstance(n.target, nodes.Tuple) else None
+            rounds: "list[nodes.Node] | None" = [] if targets is not None and all(isinstance(t, nodes.Name) for t in targets) else None
+            for i, el in enumerate(elems):
+                if rounds is None:
+                    break
+                if isinstance(n.target, nodes.Name):
+                    binding: dict[str, nodes.Node] = {n.target.name: el}
+                elif isinstance(el, (nodes.Tuple, nodes.List)) and len(el.items) == len(targets):
+                    binding = {t.name: x for t, x in zip(targets, el.items)}
+                else:
+                    rounds = None
+                    break
+                attrs = {"first": i == 0, "last": i == len(elems) - 1, "index": i + 1, "index0": i, "length": len(elems),
+                         "revindex": len(elems) - i, "revindex0": len(elems) - i - 1} if n.test is None else {}
+                rnd = copy.deepcopy(n.body)
+                holder = nodes.Scope(rnd)
+                if not _subst_loop(holder, attrs) or (not attrs and any(x.name == "loop" for x in holder.find_all(nodes.Name))):
+                    rounds = None
+                    break
+                # statements in order: a `set` of this round (assigned once in it) whose value is a literal by now is read as that literal
+                assigned: dict[str, int] = {}
+                for a in holder.find_all(nodes.Assign):
+                    if isinstance(a.target, nodes.Name):
+                        assigned[a.target.name] = assigned.get(a.target.name, 0) + 1
+                done: list[nodes.Node] = []
+                for st in rnd:
+                    _subst(st, binding)
+                    if isinstance(st, nodes.Assign) and isinstance(st.target, nodes.Name) and assigned.get(st.target.name) == 1:
+                        v = _fold_expr(st.node)
+                        if isinstance(v, nodes.Const):
+                            binding[st.target.name] = v
+                            continue
+                    done.append(st)
+                if n.test is not None:
+                    test = copy.deepcopy(n.test)
+                    wrap = nodes.Scope([nodes.Output([test])])
+                    _subst(wrap, binding)
+                    done = [nodes.If(wrap.body[0].nodes[0], done, [], [], lineno=n.lineno)]
+                rounds += _unroll(_fold(done), depth - 1)
+            if rounds is not None:
+                out += rounds
+                continue
+        n2 = copy.copy(n)
+        for fld in ("body", "else_"):
+            if isinstance(getattr(n, fld, None), list):
+                setattr(n2, fld, _unroll(getattr(n, fld), depth))
+        if isinstance(n, nodes.If):
+            n2.elif_ = []
+            for el in n.elif_:
+                el2 = copy.copy(el)
+                el2.body = _unroll(el.body, depth)
+                n2.elif_.append(el2)
+        out.append(n2)
+    return out
+
+
 def _python_of(frs: list) -> ast.Module | None:
     """the Python module a template consists of, every output expression replaced by a name"""
     try:
@@ -914,7 +1014,7 @@ def run(rep: Report, ctx: Any) -> str:
         t2 = jx.templates.get(imported[name][0]) if name in imported else None
         return t2.macros.get(imported[name][1]) if t2 is not None else None
 
-    et_body = _inline_macros(et.tree.body, macro_named)
+    et_body = _unroll(_inline_macros(_unroll(et.tree.body), macro_named))
     top = list(tplq.frags(et_body))
     # The plain variants (`def sync(`) exist exactly when the operation has a typed result; that condition - however it is spelled,
     # named or inlined - is what may decide between "return the decoded value" and "return None" in a status branch.
